@@ -9,6 +9,7 @@ the query text, for single-line and multi-line queries alike."
 import JPV.Impl.Parse
 import JPV.Spec.Position
 import JPV.Proofs.Position
+import JPV.Props.C13
 namespace JPV.Props
 open JPV
 
@@ -31,6 +32,22 @@ theorem C19_offset : C19_offset_statement := Proofs.compile_error_offset
 error, is positioned inside the text -/
 theorem C19_tokens (s : Str) (toks : List Impl.Token) (h : Impl.tokenize s = .ok toks) :
     ∀ t ∈ toks, 0 ≤ t.index ∧ t.index ≤ (s.length : Int) := Proofs.tokenize_offsets s toks h
+
+/-- **C19 at full strength, for every environment and every string**: whenever compile() rejects a query, the error
+carries a token whose offset lies between 0 and the length of the query text, and the (line, column) that
+`Token.position()` computes for that offset — what the message prints — is the line (1 + number of LF before the
+offset) and column (distance from the last LF) of that offset in the text.  (`C19_offset` ∘ `C13_compile` ∘
+`C19_linecol`: no hypothesis on the kind of error is left.) -/
+theorem C19 (env : Impl.Env) (s : Str) (e : Impl.Err) (h : Impl.compile env s = .error e) :
+    ∃ t, e.tok = some t ∧ 0 ≤ t.index ∧ t.index ≤ (s.length : Int) ∧
+      Impl.position s t.index.toNat = ((Spec.lineCol s t.index.toNat).1, ((Spec.lineCol s t.index.toNat).2 : Int)) := by
+  have hj : e.kind.isJSONPathError = true := by
+    have := C13_compile env s
+    rw [h] at this
+    exact this
+  obtain ⟨t, ht, h0, h1⟩ := C19_offset env s e h hj
+  refine ⟨t, ht, h0, h1, C19_linecol s t.index.toNat ?_⟩
+  omega
 
 example : Impl.position "$.a\n.b c".toList 7 = (2, 3) := by decide
 example : Spec.lineCol "$.a\n.b c".toList 7 = (2, 3) := by decide
